@@ -7,6 +7,7 @@ CONSTANTS
   MaxDrop = 1
   MaxExp = 1
   KnownPad = FALSE
+  NetServe = FALSE
   MinChaos = 0
 VIEW view
 INVARIANTS ConvergedWhenDone FetcherSane
